@@ -56,6 +56,11 @@ BASE_POOL = [
     ('date', D1.replace(hour=6)), ('date', D1.replace(hour=12)),
     ('date', D1.replace(hour=12, second=1)), ('float', 44000.5),
     ('int', 44001),
+    # whole numbers next to each other beyond 2^53 (cell values and library
+    # arguments can hold them exactly)
+    ('int', 2 ** 53), ('int', 2 ** 53 + 1), ('float', float(2 ** 53)),
+    ('int', 10 ** 18), ('int', 10 ** 18 + 1), ('int', -2 ** 53 - 1),
+    ('int', -2 ** 53),
     ('text', ''), ('text', '1'), ('text', '5'), ('text', '12'),
     ('text', 'true'), ('text', 'TRUE'), ('text', 'False'), ('text', 'abc'),
     ('text', 'ABC'), ('text', 'abd'), ('text', 'ab'), ('text', 'a'),
@@ -111,6 +116,8 @@ def pool_for(ctx):
 def lit_of(kind, v):
     if kind in ('blank', 'date'):
         return None
+    if kind == 'int' and abs(v) > 2 ** 53:
+        return None       # a formula literal is a double
     if kind == 'float' and (v == 0 and str(v).startswith('-')):
         return None
     if kind in ('int', 'float') and v < 0:
